@@ -132,17 +132,75 @@ def fast_parse(text, settings):
     return doc, ws.getvalue()
 
 
-def impl_render(text, depth, func, transforms=False):
-    """per heading (document order): 'N' no slug, 'W' heading_slug warning, '=<slug>'; plus the doctree/warnings."""
+VIAS = ["object", "string", "constructor", "frontmatter"]
+
+
+def front_matter(depth, func, invalid=None):
+    """the document-level entry point: myst: {heading_slug_func: <import path>, heading_anchors: n}"""
+    lines = ["---", "myst:", "  heading_anchors: %d" % depth]
+    if invalid is not None:
+        lines.append("  heading_slug_func: %s" % invalid)
+    elif func != "default":
+        lines.append("  heading_slug_func: props.C10.f_%s" % func)
+    return "\n".join(lines + ["---", ""])
+
+
+def impl_render(text, depth, func, transforms=False, via="object"):
+    """per heading (document order): 'N' no slug, 'W' heading_slug warning, '=<slug>'; plus the doctree/warnings.
+    [via] = the entry point through which heading_anchors / heading_slug_func are configured:
+      object       settings object carrying the int and the callable (what Sphinx's conf.py values amount to)
+      string       the docutils option strings --myst-heading-anchors=N --myst-heading-slug-func=pkg.mod.func, parsed by the
+                   docutils OptionParser with the parser's settings_spec
+      constructor  MdParserConfig(heading_anchors=N, heading_slug_func='pkg.mod.func') + create_md_parser + render
+      frontmatter  nothing global: the text itself starts with the myst: front matter (see front_matter())"""
+    import io
+    import warnings as _w
     from docutils import nodes
-    from lib.impl import publish, parse_only, parse_warnings
-    st = {"myst_heading_anchors": depth, "doctitle_xform": False}
-    if FUNCS[func] is not None:
-        st["myst_heading_slug_func"] = FUNCS[func]
-    if transforms:
-        doc, ws = publish(text, st)
+    from lib.impl import publish, parse_warnings
+    path = "props.C10.f_%s" % func
+    if via == "object" or transforms:
+        st = {"myst_heading_anchors": depth, "doctitle_xform": False}
+        if via == "frontmatter":
+            st = {"doctitle_xform": False}
+        elif FUNCS[func] is not None:
+            st["myst_heading_slug_func"] = FUNCS[func] if via == "object" else path
+        if transforms:
+            doc, ws = publish(text, st)
+        else:
+            doc, ws = fast_parse(text, st)
+    elif via == "frontmatter":
+        doc, ws = fast_parse(text, {"doctitle_xform": False})
+    elif via == "string":
+        from docutils.frontend import OptionParser
+        from docutils.utils import new_document
+        from myst_parser.parsers.docutils_ import Parser
+        argv = ["--myst-heading-anchors=%d" % depth] + ([] if func == "default" else ["--myst-heading-slug-func=" + path])
+        with _w.catch_warnings():
+            _w.simplefilter("ignore")
+            st = OptionParser(components=(Parser,)).parse_args(argv)
+        wsio = io.StringIO()
+        st.warning_stream, st.report_level, st.halt_level = wsio, 1, 5
+        doc = new_document("<string>", st)
+        Parser().parse(text, doc)
+        ws = wsio.getvalue()
+    elif via == "constructor":
+        import copy
+        from docutils.utils import new_document
+        from myst_parser.config.main import MdParserConfig
+        from myst_parser.mdit_to_docutils.base import DocutilsRenderer
+        from myst_parser.parsers.mdit import create_md_parser
+        fast_parse("", {})      # make sure the cached default settings exist
+        st = copy.copy(_SETTINGS)
+        wsio = io.StringIO()
+        st.warning_stream, st.report_level, st.halt_level = wsio, 1, 5
+        doc = new_document("<string>", st)
+        cfg = MdParserConfig(heading_anchors=depth, **({} if func == "default" else {"heading_slug_func": path}))
+        md = create_md_parser(cfg, DocutilsRenderer)
+        md.options["document"] = doc
+        md.render(text)
+        ws = wsio.getvalue()
     else:
-        doc, ws = fast_parse(text, st)
+        raise ValueError(via)
     warns = parse_warnings(ws)
     wl = [w["line"] for w in warns if w["tag"] == "myst.heading_slug"]
     hn = list(doc.findall(lambda n: isinstance(n, (nodes.section, nodes.rubric))))
@@ -162,8 +220,8 @@ def id_info(hn):
 LAST_IDS = [None]
 
 
-def impl_outs(text, depth, func, hs):
-    hn, wl, warns, doc = impl_render(text, depth, func)
+def impl_outs(text, depth, func, hs, via="object"):
+    hn, wl, warns, doc = impl_render(text, depth, func, via=via)
     LAST_IDS[0] = id_info(hn)
     if len(hn) != len(hs):
         return "!heading-count %d vs %d" % (len(hn), len(hs))
@@ -287,9 +345,27 @@ def case_stream(ctx, salt):
             yield {"text": text, "depth": d, "func": "default"}
     import random
     rng = random.Random("%s-%s-%s" % (ctx.seed, salt, ctx.tier))
+    # every entry point of the configuration x every function x depths, on fixed documents
+    bodies = ["# ab\n\n## cd\n\n# ab\n\n> ### x y\n", "# Hello World\n\n# b\n\n## b\n", "# a\n\n# a\n\n# a-1\n"]
+    for via in VIAS:
+        for func in FUNCS:
+            for depth in (0, 1, 2, 7):
+                for body in bodies:
+                    text = (front_matter(depth, func) + body) if via == "frontmatter" else body
+                    yield {"text": text, "depth": depth, "func": func, "via": via}
+    # an import string that cannot be loaded, in the front matter: one warning, the default stays
+    for bad in ("props.C10.no_such_function", "no_such_module_xyz.f", "123"):
+        for body in bodies:
+            yield {"text": front_matter(2, "default", invalid=bad) + body, "depth": 2, "func": "default", "via": "frontmatter",
+                   "invalid": bad}
     for _ in range(ctx.budget(1500, 12000, 20000)):
         func = rng.choice(["default"] * 5 + ["rev", "const", "raiseb"])
-        yield {"text": rand_doc(rng), "depth": rng.choice([0, 1, 2, 2, 3, 4, 5, 6, 6, 7]), "func": func}
+        depth = rng.choice([0, 1, 2, 2, 3, 4, 5, 6, 6, 7])
+        via = rng.choice(["object"] * 3 + VIAS)
+        text = rand_doc(rng)
+        if via == "frontmatter":
+            text = front_matter(depth, func) + text
+        yield {"text": text, "depth": depth, "func": func, "via": via}
 
 
 def nontriv_key(ctx, case, outs):
@@ -308,7 +384,7 @@ def _impl_pair(args):
     with scratch_dir() as d:
         for c, hs in args:
             try:
-                i_outs = impl_outs(c["text"], c["depth"], c["func"], hs)
+                i_outs = impl_outs(c["text"], c["depth"], c["func"], hs, c.get("via", "object"))
             except Exception as e:
                 i_outs = "!" + type(e).__name__
             i_cli = None
@@ -575,11 +651,17 @@ def check_doc(ctx, case, d):
         nonlocal ok
         ok = False
         ctx.fail(sig, case, what, expected, observed)
+    via = case.get("via", "object")
     try:
-        hn, wl, warns, doc = impl_render(text, depth, func)
+        hn, wl, warns, doc = impl_render(text, depth, func, via=via)
     except Exception as e:
         fail("slug:exception:" + type(e).__name__, "rendering raised %r" % (e,))
         return False
+    if case.get("invalid") is not None:
+        tm = [w for w in warns if w["tag"] == "myst.topmatter"]
+        if len(tm) != 1:
+            fail("slug:config:invalid-import-string", "front matter heading_slug_func: %s must give exactly one myst.topmatter warning "
+                 "(and leave the default in place)" % case["invalid"], 1, [w["msg"] for w in tm])
     if len(hn) != len(hs):
         return True  # not a document this oracle understands (heading count differs)
     seen = []
@@ -600,7 +682,10 @@ def check_doc(ctx, case, d):
                      {"warnings": 1, "slug": None}, {"warnings": nw, "slug": slug})
             continue
         if slug is None or nw:
-            fail("slug:missing", "heading within the anchor depth has no slug (or a warning)", base, {"slug": slug, "warnings": nw})
+            fail("slug:missing" if via == "object" else "slug:missing:config-via-" + via,
+                 "heading within the anchor depth has no slug (or a warning)%s"
+                 % ("" if via == "object" else "; heading_anchors / heading_slug_func configured through: " + via),
+                 base, {"slug": slug, "warnings": nw})
             continue
         if slug in seen:
             fail("slug:duplicate", "slug %r assigned twice" % slug, None, slug)
@@ -629,11 +714,11 @@ def check_doc(ctx, case, d):
                  "anchors assigned by the renderer differ from myst-anchors -l %d" % depth
                  + (" (title with leading/trailing space: default_slugify lacks the plug-in's strip())" if untrimmed else ""),
                  cli, got)
-    # resolvability
-    if func == "default" and got:
+    # resolvability (custom functions: when the slugs can be written as plain link destinations)
+    if got and (func == "default" or all(re.fullmatch(r"[A-Za-z0-9_-]*", s2) for _, s2 in got)):
         links = "\n\n" + "\n\n".join("[](#%s)" % s for _, s in got) + "\n"
         try:
-            hn2, wl2, warns2, doc2 = impl_render(text + links, depth, func, transforms=True)
+            hn2, wl2, warns2, doc2 = impl_render(text + links, depth, func, transforms=True, via=via)
         except Exception as e:
             fail("slug:exception:" + type(e).__name__, "rendering with links raised %r" % (e,))
             return ok
@@ -652,9 +737,37 @@ def check_doc(ctx, case, d):
     return ok
 
 
+def check_reuse(ctx):
+    """one renderer object renders two documents: the slugs of the second are those of a fresh render"""
+    import copy
+    from docutils import nodes
+    from docutils.utils import new_document
+    from myst_parser.config.main import MdParserConfig
+    from myst_parser.mdit_to_docutils.base import DocutilsRenderer
+    from myst_parser.parsers.mdit import create_md_parser
+    fast_parse("", {})
+    for first, second in (("# a\n\n# b\n", "# a\n\n# a\n"), ("# x\n", "# x\n\n## x\n"), ("# a-1\n\n# a\n", "# a\n\n# a\n")):
+        ctx.search_cases += 1
+        md = create_md_parser(MdParserConfig(heading_anchors=2), DocutilsRenderer)
+        res = []
+        for text in (first, second):
+            doc = new_document("<string>", copy.copy(_SETTINGS))
+            md.options["document"] = doc
+            md.render(text)
+            res.append([n.get("slug") for n in doc.findall(lambda n: isinstance(n, (nodes.section, nodes.rubric)))])
+        seen, want = [], []
+        for lv, ch, _ in headings_of(second):
+            want.append(least_suffix(github_slug("".join(c for ty, c in ch if ty in "TC")), seen))
+            seen.append(want[-1])
+        if res[1] != want:
+            ctx.fail("slug:state-leak:renderer-reuse", {"kind": "reuse", "first": first, "second": second},
+                     "the same renderer object rendered two documents: slugs of the second depend on the first", want, res[1])
+
+
 def search(ctx):
     from lib.impl import scratch_dir
     seen_sig = {}
+    check_reuse(ctx)
     with scratch_dir() as d:
         for c in ctx.suspects[:300]:
             if c and c.get("kind") == "doc":
@@ -680,6 +793,12 @@ def replay(ctx, data):
         print("replay file names no concrete input:", data.get("no_longer_checks"))
         return 1
     with scratch_dir() as d:
+        if w.get("kind") == "reuse":
+            n = len(ctx.failures)
+            check_reuse(ctx)
+            ok = len(ctx.failures) == n
+            print("replay:", "property holds on this input" if ok else ctx.failures[-1])
+            return 0 if ok else 1
         if w.get("kind") == "title":
             w = {"text": "# `%s`\n" % w["title"], "depth": 1, "func": "default"}
         ok = check_doc(ctx, w, d)
